@@ -7,6 +7,7 @@ package op
 // parameter list (url.ParseQuery, also executed from its real body).
 
 import (
+	"errors"
 	"net/url"
 
 	nd "github.com/zitadel/oidc/v3/internal/verifnd"
@@ -138,6 +139,26 @@ func VerifC11Error() {
 		want["error_description"] = desc
 	}
 	verifC11Check(out, fragment, uriIdx, want)
+}
+
+// error redirects of the authorization endpoint: the text of a non-OAuth error (storage / implementation error)
+// becomes the error_description of the redirect
+func VerifC11ErrorRedirect() {
+	uriIdx := nd.Choice("uri", len(verifC11URIs))
+	desc := verifC11Value("desc")
+	nd.Assume(desc != "")
+	st := &verifStorage{}
+	verifSetupSigning(st, "RS256")
+	p := verifProvider(st)
+	authReq := &oidc.AuthRequest{RedirectURI: verifC11URIs[uriIdx], ResponseType: oidc.ResponseTypeCode, State: "st4te", ClientID: "clientA"}
+	rec := newVerifRec()
+	AuthRequestError(rec, verifWithIssuer(nd.Request("GET", "/authorize", url.Values{}, "", "", false, false)), authReq, errors.New(desc), p)
+	nd.Assert(rec.status == 302, "a non-OAuth error of a validated request is redirected")
+	if rec.status != 302 {
+		return
+	}
+	nd.Cover("error-redirect")
+	verifC11Check(rec.hdr.Get("Location"), false, uriIdx, map[string]string{"error": "server_error", "state": "st4te", "error_description": desc})
 }
 
 // form_post: data flow into the page (values and action unmodified); escaping itself is html/template's
